@@ -555,7 +555,9 @@ class SourceFinder(object):
         # mask of pixles that are above the outerclip
         a = snr >= outerclip
         # segmentation a la scipy
-        l, n = label(a)
+        # diagonal neighbours belong together (as in find_islands): two
+        # equal local maxima that touch at a corner are one summit
+        l, n = label(a, structure=np.ones((3, 3)))
         f = find_objects(l)
 
         if n == 0:
